@@ -7,7 +7,6 @@ package h_goldmane
 
 import (
 	"fmt"
-	"os"
 	"sort"
 	"strings"
 	"testing"
@@ -141,7 +140,6 @@ type harness struct {
 	inCall  string
 
 	emitsThisCall int
-	skip          map[string]bool
 	// direct mode: how many intervals the ring lags behind the clock (negative: ahead)
 	lag int
 }
@@ -187,16 +185,6 @@ func (h *harness) call(what string, f func()) {
 	if h.emitsThisCall > 1 {
 		h.r.Probe("emit_multi_collections_one_call")
 	}
-}
-
-// check is r.Check, except that oracles named in VERIF_SKIP_ORACLES (comma separated; for triage of a known finding
-// only, never set by ./check) are counted as probes instead of ending the run.
-func (h *harness) check(oracle string, ok bool, format string, a ...interface{}) {
-	if !ok && h.skip[oracle] {
-		h.r.Probe("skipped_" + oracle)
-		return
-	}
-	h.r.Check(oracle, ok, format, a...)
 }
 
 type sinkStub struct{ h *harness }
@@ -353,13 +341,13 @@ func (h *harness) onEmit(c *storage.FlowCollection) {
 	// ensure that we have a complete view" - the newest emitted bucket is pushAfter buckets behind the one being filled
 	// (the head bucket is the one-interval look-ahead, the bucket before it is being filled).
 	newestAllowedEnd := m.end - int64(2+m.pushAfter)*m.interval
-	h.check("emit_not_before_push_delay", c.EndTime <= newestAllowedEnd,
+	r.Check("emit_not_before_push_delay", c.EndTime <= newestAllowedEnd,
 		"during %s the sink received [%d,%d) but with pushAfter=%d nothing newer than %d may be emitted yet (history [%d,%d), interval %d, n=%d bucketsToAggregate=%d)",
 		h.inCall, c.StartTime, c.EndTime, m.pushAfter, newestAllowedEnd, m.begin, m.end, m.interval, h.n, h.k)
 	want := map[int]cnt{}
 	has := map[int]bool{}
 	for b := c.StartTime; b < c.EndTime; b += m.interval {
-		h.check("emit_at_most_once", !m.emitted[b], "during %s the sink received [%d,%d) but bucket %d was already emitted earlier (history [%d,%d), interval %d, n=%d pushAfter=%d bucketsToAggregate=%d)",
+		r.Check("emit_at_most_once", !m.emitted[b], "during %s the sink received [%d,%d) but bucket %d was already emitted earlier (history [%d,%d), interval %d, n=%d pushAfter=%d bucketsToAggregate=%d)",
 			h.inCall, c.StartTime, c.EndTime, b, m.begin, m.end, m.interval, h.n, h.p, h.k)
 		m.emitted[b] = true
 		for _, f := range m.buckets[b] {
@@ -805,7 +793,7 @@ func (h *harness) opList() {
 			}
 			paged = append(paged, pe...)
 		}
-		h.check("list_pages_partition", h.fmtEntries(paged) == h.fmtEntries(es), "%s: pages of size %d concatenate to {%s} but the unpaged result is {%s}", desc, size, h.fmtEntries(paged), h.fmtEntries(es))
+		r.Check("list_pages_partition", h.fmtEntries(paged) == h.fmtEntries(es), "%s: pages of size %d concatenate to {%s} but the unpaged result is {%s}", desc, size, h.fmtEntries(paged), h.fmtEntries(es))
 	}
 }
 
@@ -1043,12 +1031,7 @@ func run(t *testing.T, r *core.R) {
 		"flow_before_newer_window_of_same_key", "emit_collection", "emit_multi_collections_one_call", "sink_attach_with_backlog", "bucket_expired_with_flows", "ring_wrapped",
 		"list_zero_entry_partial_bucket", "list_filtered", "list_sorted_index", "list_paged", "stats_timeseries", "stats_range_error", "unaligned_query", "rollover_catchup", "loop_mode", "ring_mode",
 		"emission_lap_aligned_config")
-	h := &harness{r: r, keyBySg: map[string]int{}, skip: map[string]bool{}}
-	for _, o := range strings.Split(os.Getenv("VERIF_SKIP_ORACLES"), ",") {
-		if o != "" {
-			h.skip[o] = true
-		}
-	}
+	h := &harness{r: r, keyBySg: map[string]int{}}
 	h.hook = &budgetHook{h: h}
 	logrus.SetLevel(logrus.ErrorLevel)
 	logrus.SetFormatter(nullFormatter{})
@@ -1074,21 +1057,8 @@ func run(t *testing.T, r *core.R) {
 	}
 	h.k = r.Src.Range(1, maxK, "buckets_to_aggregate")
 	// Geometries in which (n-1-pushAfter) is a multiple of bucketsToAggregate make the backwards walk of
-	// EmitFlowCollections land exactly on the head bucket (finding C32-D1).  They are drawn at full weight;
-	// "lap_aligned_configs" in VERIF_SKIP_ORACLES (triage on a tree without the fix) steers to the nearest other geometry.
+	// EmitFlowCollections land exactly on the head bucket (the case fixed by /repo 58d2c58); drawn at full weight.
 	aligned := func(p, k int) bool { return (h.n-1-p)%k == 0 }
-	keepAligned := !h.skip["lap_aligned_configs"]
-	if aligned(h.p, h.k) && !keepAligned {
-	search:
-		for d := 1; d < h.n; d++ {
-			for _, c := range [][2]int{{h.p, h.k + d}, {h.p, h.k - d}, {h.p + d, h.k}, {h.p - d, h.k}, {h.p - d, h.k + d}} {
-				if c[0] >= 0 && c[1] >= 1 && c[0] <= maxP && c[1] <= 24 && c[0]+c[1]+2 <= h.n && !aligned(c[0], c[1]) {
-					h.p, h.k = c[0], c[1]
-					break search
-				}
-			}
-		}
-	}
 	if aligned(h.p, h.k) {
 		r.Probe("emission_lap_aligned_config")
 	}
